@@ -184,12 +184,18 @@ class Builder:
         if module in seen:
             return {}
         seen.add(module)
+        # Rust name resolution: items and named imports of the module shadow whatever a glob import brings in
         out = {}
+        uses = self.facts.uses.get(module, [])
+        for u in uses:
+            if u.get("glob"):
+                self._use_into(u, module, out, seen)
+        for u in uses:
+            if not u.get("glob"):
+                self._use_into(u, module, out, seen)
         for key, fn in self.facts.fns.items():
             if fn.impl is None and fn.module == module:
                 out[fn.name] = ("fn", key)
-        for u in self.facts.uses.get(module, []):
-            self._use_into(u, module, out, seen)
         return out
 
     def _abs(self, path, module):
@@ -332,9 +338,13 @@ class Builder:
             if st["k"] == "item":
                 continue
             unknown.append(st)
-        if inp is None and "Parser<" in F.norm_ty(fn.node["output"]) and len(stmts) == 1 and stmts[0]["k"] == "expr":
-            # a function *returning* a parser, e.g. quote_delimiter()
-            return N("fnbody", fn.node, steps=[], tail=self.pe(stmts[0]["e"], env), ret=None, lets=[], unknown=[], returns_parser=True)
+        if inp is None and "Parser<" in F.norm_ty(fn.node["output"]):
+            # a function *returning* a parser, e.g. quote_delimiter(); nested items are declarations, not statements
+            real = [s_ for s_ in stmts if s_["k"] != "item"]
+            if len(real) == 1 and real[0]["k"] == "expr":
+                return N("fnbody", fn.node, steps=[], tail=self.pe(real[0]["e"], env), ret=None, lets=[], unknown=[], returns_parser=True)
+            # anything else is not understood: keep the marker so that the rules about word parsers see (and reject) it
+            return N("fnbody", fn.node, steps=[], tail=N("opaque", fn.node, src="body of %s" % fn.key), ret=None, lets=[], unknown=[s_ for s_ in real], returns_parser=True)
         return N("fnbody", fn.node, steps=steps, tail=tail, ret=ret, lets=lets, unknown=unknown)
 
     def _ok_wrapped_invocation(self, a, env):
